@@ -102,9 +102,15 @@ _RUNTIME_FRAMES = ("__asan", "__interceptor", "__sanitizer", "__ubsan", "operato
                    "__GI_", "raise", "abort", "__assert", "_start", "__libc", "memcpy", "strlen", "memcmp", "strcmp")
 
 
-def run(cmd, env=None, timeout=60, stdin=None, cwd=None, binary=False):
+def run(cmd, env=None, timeout=60, stdin=None, cwd=None, binary=False, _retry=True):
     t0 = time.time()
     r = Res()
+    if _retry and stdin is None and timeout <= 300:
+        # a wall-clock time-out on a loaded machine says nothing about the command: one confirming run with six times the budget
+        r = run(cmd, env=env, timeout=timeout, cwd=cwd, binary=binary, _retry=False)
+        if not r.timeout:
+            return r
+        return run(cmd, env=env, timeout=6 * timeout, cwd=cwd, binary=binary, _retry=False)
     try:
         p = subprocess.run(cmd, env=env if env is not None else henv(), stdin=stdin if stdin is not None else subprocess.DEVNULL,
                            stdout=subprocess.PIPE, stderr=subprocess.PIPE, timeout=timeout, cwd=cwd)
